@@ -137,6 +137,10 @@ func (c *c11World) concurrentStop() {
 	}
 }
 
+// c11HoldConfigSave, when set by an optional harness file (see //verif:requires), takes (true) or
+// releases (false) the lock a configuration save holds, which makes a Start in progress slow.
+var c11HoldConfigSave func(hold bool)
+
 func (c *c11World) concurrentStart() {
 	// a stale flag would make Start refuse (as in startMain)
 	for deadline := time.Now().Add(10 * time.Second); c.state() != c11Down && time.Now().Before(deadline); {
@@ -149,8 +153,8 @@ func (c *c11World) concurrentStart() {
 	var dummy string
 	c.sc.SendAllStatus(&dummy, &ok)
 	held := false
-	if c.kind != 3 {
-		viperMutex.Lock() // a configuration save in progress: PrepareRun waits for it
+	if c.kind != 3 && c11HoldConfigSave != nil {
+		c11HoldConfigSave(true) // a configuration save in progress: PrepareRun waits for it
 		held = true
 	}
 	bDone := make(chan error, 1)
@@ -175,7 +179,7 @@ func (c *c11World) concurrentStart() {
 		c.call(c.ordinaryRequest(false))
 	}
 	if held {
-		viperMutex.Unlock()
+		c11HoldConfigSave(false)
 	}
 	errB := <-bDone
 	c.overlap = false
